@@ -16,8 +16,9 @@ def first_sentence(notes):
     return (m.group(1) if m else body[:240]).replace("|", "/")
 
 
+SUMMARY = json.load(open(os.path.join(ROOT, "seeded", "SUMMARY.json")))
 rows = []
-for d in sorted(glob.glob(os.path.join(ROOT, "seeded", "*"))):
+for d in sorted(glob.glob(os.path.join(ROOT, "seeded", "C*_*"))):
     mp = os.path.join(d, "meta.json")
     if not os.path.exists(mp):
         continue
@@ -28,7 +29,9 @@ for d in sorted(glob.glob(os.path.join(ROOT, "seeded", "*"))):
     sigs = m["check_result"].get("signatures", [])
     asserts = sorted(set(s.split("|")[0] for s in sigs))[:3]
     caught_by = m.get("caught_by", m["breaks_property"] if m["detected"] else "-")
-    rows.append((name, m["breaks_property"], first_sentence(m.get("needs_to_manifest", "")), "yes" if first else "no",
+    summ = SUMMARY.get(name)
+    text = ("%s — needs: %s" % (summ[0], summ[1])) if summ else first_sentence(m.get("needs_to_manifest", ""))
+    rows.append((name, m["breaks_property"], text.replace("|", "/"), "yes" if first else "no",
                  "yes" if m["detected"] else "NO", caught_by, ", ".join(asserts)))
 
 print("| seed | property | change (from the author's notes) | caught at first | caught now | by check | assertions that fire |")
